@@ -121,6 +121,26 @@ fn mutate(p: &mut Party, foreign_dids: &[String], round: usize) {
   for i in 0..n {
     let own = p.did.clone();
     match ctx::choose(10) {
+      8 if ctx::choose(3) == 0 => {
+        // the same fragment under the document's own DID and under a foreign IOTA DID (method or service)
+        let foreign_iota: Vec<&String> = foreign_dids.iter().filter(|d| d.starts_with("did:iota:")).collect();
+        if let (AnyDoc::Iota(doc), Some(f)) = (&mut p.doc, foreign_iota.first()) {
+          if ctx::choose(2) == 0 {
+            if let (Some(a), Some(b)) = (mixed_method(&own, &own, "dup"), mixed_method(f, f, "dup")) {
+              let _ = doc.insert_method(a, MethodScope::VerificationMethod);
+              let _ = doc.insert_method(b, MethodScope::VerificationMethod);
+            }
+          } else {
+            for d in [own.as_str(), f.as_str()] {
+              let sj = serde_json::json!({"id": format!("{d}#dupsvc"), "type": "SimService", "serviceEndpoint": format!("https://svc.example/{}", d.len())});
+              if let Ok(svc) = Service::from_json_value(sj) {
+                let _ = doc.insert_service(svc);
+              }
+            }
+          }
+          ctx::stat("probe.same_fragment_under_own_and_foreign_iota_did");
+        }
+      }
       9 => {
         // id and controller under different DIDs: foreign id controlled by this document, or own id controlled elsewhere
         let other = &foreign_dids[ctx::choose(foreign_dids.len())];
@@ -409,14 +429,61 @@ pub fn run(_params: &Params) {
       check_unpacked("rebased-at-first-publish", &unpack_for(&version.bytes, &p.did), &version.truth, &want_meta);
     }
     // any other target DID / network
-    let other = format!(
+    let mut other = format!(
       "did:iota:{}0x{}",
       ["", "smr:", "rms:", "tst:"][ctx::choose(4)],
       hex_tag()
     );
+    // (a DID the document does not mention; the mentioned ones are the subject of the step after this one)
+    if foreign_dids.contains(&other) || other == p.did {
+      other.pop();
+      other.push('f');
+    }
     ctx::stat("probe.unpack_for_other_did");
     let want_other = rewrite_self_refs(&pre_json, &pre_did, &other);
     check_unpacked("other-did", &unpack_for(&version.bytes, &other), &want_other, &want_meta);
+    // ... and for a DID that the document already MENTIONS as a foreign DID under a fragment it also uses itself:
+    // after the rewrite two entries would carry one identifier. That cannot be "the same document with its
+    // self-references rewritten"; the only acceptable answer is an error (never a silently smaller document).
+    if pre_did == p.did {
+      let mentioned: Vec<&String> = foreign_dids.iter().filter(|d| d.starts_with("did:iota:") && pre_json.to_string().contains(d.as_str())).collect();
+      if let Some(target) = mentioned.first() {
+        let want = rewrite_self_refs(&pre_json, &pre_did, target);
+        let mut ids: Vec<String> = Vec::new();
+        for k in ["verificationMethod", "authentication", "assertionMethod", "keyAgreement", "capabilityDelegation", "capabilityInvocation"] {
+          if let Some(a) = want.get(k).and_then(|a| a.as_array()) {
+            for e in a.iter().filter(|e| e.is_object()) {
+              ids.push(e.get("id").and_then(|i| i.as_str()).unwrap_or("").to_owned());
+            }
+          }
+        }
+        let svc: Vec<String> = want.get("service").and_then(|a| a.as_array()).map(|a| a.iter().map(|e| e.get("id").and_then(|i| i.as_str()).unwrap_or("").to_owned()).collect()).unwrap_or_default();
+        let has_dup = |v: &Vec<String>| {
+          let mut s = v.clone();
+          s.sort();
+          s.windows(2).any(|w| w[0] == w[1])
+        };
+        if has_dup(&ids) || has_dup(&svc) {
+          ctx::stat("probe.unpack_for_mentioned_did_with_colliding_identifiers");
+          match ctx::catch(|| unpack_for(&version.bytes, target)) {
+            Ok(Err(_)) => {}
+            Ok(Ok(d)) => ctx::violation(
+              "C14",
+              "C14.rewrites_exactly_self_references",
+              "mentioned-did/colliding-identifiers-merged-silently",
+              format!(
+                "unpacking for {target}, which the document mentions under a fragment it uses itself, returned Ok with {} methods and {} services (the document has {} and {})",
+                d.core_document().methods(None).len(),
+                d.core_document().service().len(),
+                ids.len(),
+                svc.len()
+              ),
+            ),
+            Err(pmsg) => ctx::violation("C14", "C14.rewrites_exactly_self_references", "mentioned-did/panic", format!("unpack panicked: {pmsg}")),
+          }
+        }
+      }
+    }
 
     // ---- ledger byte faults on this version ----
     let body_len = version.bytes.len() - 7;
